@@ -4,5 +4,6 @@ import SarpyModel.Props.C07
 import SarpyModel.Props.C16
 import SarpyModel.Props.C13
 import SarpyModel.Props.C03
+import SarpyModel.Props.C02
 import SarpyModel.Gen.NitfTables
 import SarpyModel.Drivers
